@@ -5,6 +5,9 @@ package c01
 import (
 	"bytes"
 	"context"
+	"fmt"
+	"io"
+	"strings"
 	"testing"
 
 	"github.com/paulmach/osm"
@@ -22,12 +25,54 @@ type Case struct {
 	Procs int
 	// HeaderFirst: call Header() before the first Scan.
 	HeaderFirst bool
+	// Reader: 0 bytes.Reader; 1 returns the final bytes together with io.EOF
+	// (allowed by the io.Reader contract); 2 hands out 1..7 byte pieces; 3 both.
+	Reader int
+}
+
+// pieceReader is an io.Reader over data with configurable piece size and
+// end-of-stream behaviour.
+type pieceReader struct {
+	data    []byte
+	piece   int
+	dataEOF bool
+}
+
+func (r *pieceReader) Read(p []byte) (int, error) {
+	if len(r.data) == 0 {
+		return 0, io.EOF
+	}
+	n := len(p)
+	if r.piece > 0 && n > r.piece {
+		n = r.piece
+	}
+	if n > len(r.data) {
+		n = len(r.data)
+	}
+	copy(p, r.data[:n])
+	r.data = r.data[n:]
+	if len(r.data) == 0 && r.dataEOF {
+		return n, io.EOF
+	}
+	return n, nil
+}
+
+func (c *Case) reader(data []byte) io.Reader {
+	switch c.Reader {
+	case 1:
+		return &pieceReader{data: data, dataEOF: true}
+	case 2:
+		return &pieceReader{data: data, piece: 1 + len(data)%7}
+	case 3:
+		return &pieceReader{data: data, piece: 1 + len(data)%7, dataEOF: true}
+	}
+	return bytes.NewReader(data)
 }
 
 func check(c Case) error {
 	enc := c.File.Encode()
 	want, _ := c.File.Expected()
-	s := osmpbf.New(context.Background(), bytes.NewReader(enc.Data), c.Procs)
+	s := osmpbf.New(context.Background(), c.reader(enc.Data), c.Procs)
 	defer s.Close()
 	if c.HeaderFirst {
 		h, err := s.Header()
@@ -80,6 +125,7 @@ func TestScan(t *testing.T) {
 				File:        pbfgen.GenFile(t, pbfgen.Opt{MinBlocks: 0, MaxBlocks: 6, Big: true}),
 				Procs:       rapid.SampledFrom([]int{1, 2, 3, 4, 7, 16, 32}).Draw(t, "procs"),
 				HeaderFirst: rapid.Bool().Draw(t, "headerFirst"),
+				Reader:      rapid.SampledFrom([]int{0, 0, 1, 2, 3}).Draw(t, "reader"),
 			}
 		},
 		Check:    check,
@@ -95,5 +141,42 @@ func TestScan(t *testing.T) {
 			"absent-after-present:visible": 0.02, "absent-after-present:keyvals": 0.01,
 		},
 		Inflight: true,
+	})
+}
+
+// Blobs between the recommended 16 MiB and the hard 32 MiB limit are valid
+// ("should be less than 16 MiB, must be less than 32 MiB"). The size is reached
+// with one large unused string-table entry, so the block still has few elements.
+type BigCase struct {
+	File    *pbfgen.File
+	Procs   int
+	Padding int // bytes of the unused string-table entry of block 0
+}
+
+func TestBigBlobs(t *testing.T) {
+	sizes := []int{16<<20 - 4096, 16 << 20, 16<<20 + 4096, 24 << 20, 32<<20 - 65536}
+	harness.Run(t, harness.Spec[BigCase]{
+		Name: "big-blobs", N: 6,
+		Rule: "valid files whose first data block is padded with one large unused string-table entry so that its raw blob is just below 16 MiB, just above it, 24 MiB or just below the 32 MiB limit (raw or zlib), followed by ordinary blocks; same field-for-field oracle; non-trivial = blob above 16 MiB",
+		Gen: func(t *rapid.T) BigCase {
+			return BigCase{File: pbfgen.GenFile(t, pbfgen.Opt{MinBlocks: 1, MaxBlocks: 3, Small: true, NonEmpty: true}),
+				Procs: rapid.SampledFrom([]int{1, 3}).Draw(t, "procs"), Padding: rapid.SampledFrom(sizes).Draw(t, "padding")}
+		},
+		Check: func(c BigCase) error {
+			f := *c.File
+			b0 := *f.Blocks[0]
+			b0.ExtraStrings = append(append([]string{}, b0.ExtraStrings...), strings.Repeat("x", c.Padding))
+			f.Blocks = append([]*pbfgen.Block{&b0}, f.Blocks[1:]...)
+			return check(Case{File: &f, Procs: c.Procs})
+		},
+		Classify: func(c BigCase) (bool, []string) { return c.Padding >= 16<<20, nil },
+		Describe: func(c BigCase) any {
+			return map[string]any{"padding": c.Padding, "procs": c.Procs, "blocks": len(c.File.Blocks)}
+		},
+		Key: func(c BigCase) []byte {
+			return []byte(fmt.Sprint(c.Padding, c.Procs, len(c.File.Blocks), c.File.Blocks[0].Zlib))
+		},
+		Inflight: true,
+		NoReplay: true,
 	})
 }
